@@ -1,0 +1,41 @@
+#![allow(missing_docs)]
+//! Verification hook (compiled only with `--cfg html5ever_verif`): a read-only
+//! dump of the complete XML tree-builder state, destructured exhaustively.
+use super::{TreeSink, XmlTreeBuilder};
+
+#[derive(Debug, Clone)]
+pub struct VerifXmlTb<Handle> {
+    pub doc_handle: Handle,
+    pub open_elems: Vec<Handle>,
+    pub curr_elem: Option<Handle>,
+    pub namespace_stack: String,
+    pub current_namespace: String,
+    pub phase: String,
+}
+
+impl<Handle, Sink> XmlTreeBuilder<Handle, Sink>
+where
+    Handle: Clone,
+    Sink: TreeSink<Handle = Handle>,
+{
+    pub fn verif_dump(&self) -> VerifXmlTb<Handle> {
+        let XmlTreeBuilder {
+            _opts: _,
+            sink: _,
+            doc_handle,
+            open_elems,
+            curr_elem,
+            namespace_stack,
+            current_namespace,
+            phase,
+        } = self;
+        VerifXmlTb {
+            doc_handle: doc_handle.clone(),
+            open_elems: open_elems.borrow().clone(),
+            curr_elem: curr_elem.borrow().clone(),
+            namespace_stack: format!("{:?}", namespace_stack.borrow()),
+            current_namespace: format!("{:?}", current_namespace.borrow()),
+            phase: format!("{:?}", phase.get()),
+        }
+    }
+}
